@@ -2,6 +2,7 @@ import Driver.Util
 import NutsModel.C11.Revocation
 import NutsModel.C11.Wire
 import NutsModel.C11.ValidAt
+import NutsModel.C11.CredStatus
 import NutsModel.Facts.C11
 open Lean Nuts.Drv Nuts.C11 Nuts
 
@@ -392,12 +393,19 @@ def step (w : World) (j : Json) : World × List String :=
     | res => (w, ["vregister " ++ resErr res])
   | "visrevoked" => (w, [s!"visrevoked {w.b.isRevoked (jStr j "id")}"])
   | "vverify" =>
-    let sts := (jArr j "statuses").map fun s => ({ list := .raw (jStr s "url"), idx := atoi (jStr s "idx") } : StatusEntry)
-    let c : Cred := { id := if jStr j "id" == "" then none else some (jStr j "id"), issuer := jStr j "issuer"
-                      statuses := if sts.isEmpty then none else some sts }
+    -- the credential's status entries as wire strings (what the harness puts into the JSON), `mal` = how one is malformed
+    let wires : List Wire.WireEntry := (jArr j "statuses").zipIdx.map fun (s, k) =>
+      let mal := jStr s "mal"
+      let url := if mal == "badurl" then "lists.example/not-a-request-uri" else jStr s "url"
+      { id := if mal == "noid" then "" else if mal == "idislist" then url else s!"{url}#{jStr s "idx"}-{k}"
+        type := if mal == "notype" then "" else if mal == "othertype" then "OtherStatus" else "StatusList2021Entry"
+        purpose := if mal == "nopurpose" then "" else if mal == "suspension" then "suspension" else "revocation"
+        index := jStr s "idx", list := url }
+    let cid := if jStr j "id" == "" then none else some (jStr j "id")
     -- validAt = now + `at` minutes (absent: nil); the harness credential is issued one hour ago and never expires
     let atMin := jInt j "at"
-    let (v, w') := verifyAt env true w c (jStr j "kind" == "nutsorg") (jBool j "storefault")
+    let (v, w') := Wire.verifyWire env true w cid (jStr j "issuer") (!jBool j "noslctx") (fun u => u.startsWith "https://") Url.raw
+      (if wires.isEmpty then none else some wires) (jStr j "kind" == "nutsorg") (jBool j "storefault")
       (if atMin == 0 then none else some atMin) 0 (fun t => decide (-60 ≤ t))
     (w', ["vverify " ++ verdictStr v])
   -- third harness (vcr, ambassador): a revocation event delivered by the network, with injected store faults
